@@ -1532,6 +1532,9 @@ func (t *tScreen) parseClipboard(buf *bytes.Buffer, evs *[]Event) (bool, bool) {
 		// definitely not a match
 		return false, false
 	}
+	if !bytes.HasPrefix(b, prefix) {
+		return false, false
+	}
 	b = b[len(prefix):]
 
 	for _, c := range b {
